@@ -215,6 +215,57 @@ func ruleJSONStringify(c *Ctx, r *R) {
 			}
 		}
 	}
+	// ES5 §15.12.3 Str steps 2-3: toJSON is applied first, the replacer function sees its result
+	for _, fn := range fns {
+		if fn == top {
+			continue
+		}
+		var toJSONGet, replCall ssa.Instruction
+		for _, b := range fn.Blocks {
+			for _, ins := range b.Instrs {
+				call, ok := ins.(*ssa.Call)
+				if !ok {
+					continue
+				}
+				callee := call.Call.StaticCallee()
+				if callee == nil {
+					continue
+				}
+				if callee.Name() == "get" && len(call.Call.Args) == 2 {
+					if k, ok := call.Call.Args[1].(*ssa.Const); ok {
+						if str, isStr := constStringVal(k); isStr && str == "toJSON" {
+							toJSONGet = call
+						}
+					}
+				}
+				if callee.Name() == "call" && len(call.Call.Args) > 0 {
+					a := loadAddr(call.Call.Args[0])
+					if a != nil {
+						if inner := loadAddr(a); inner != nil {
+							a = inner // the field holds a *Value
+						}
+					}
+					if a != nil {
+						if nt, f := fieldOfAddr(a); nt != nil && nt.Obj().Name() == "builtinJSONStringifyContext" && f.Name() == "replacerFunction" {
+							replCall = call
+						}
+					} else if fld, ok := call.Call.Args[0].(*ssa.Field); ok {
+						if st, ok := fld.X.Type().Underlying().(*types.Struct); ok && st.Field(fld.Field).Name() == "replacerFunction" {
+							replCall = call
+						}
+					}
+				}
+			}
+		}
+		if toJSONGet == nil && replCall == nil {
+			continue
+		}
+		if toJSONGet == nil || replCall == nil {
+			r.undecided("str-order:"+ssaFuncName(fn), c.Pos(fn.Pos()), fmt.Sprintf("UNRESOLVED: toJSON lookup found=%v, replacer call found=%v in the stringify walker", toJSONGet != nil, replCall != nil))
+			continue
+		}
+		r.check(!reachesInstr(replCall, toJSONGet), "str-order:"+ssaFuncName(fn), c.Pos(instrPos(replCall)), "toJSON is applied before the replacer function is called", "§15.12.3 Str steps 2-3: the replacer function is called before the value's toJSON method is looked up: the replacer sees the raw object instead of its toJSON result, and toJSON is then applied to whatever the replacer returned")
+	}
 	if pushes == 0 {
 		r.undecided("push", c.Pos(top.Pos()), "no push onto the cycle stack found")
 	}
